@@ -4,6 +4,7 @@ package simnet
 
 import (
 	"encoding/binary"
+	"encoding/hex"
 	"fmt"
 	"strconv"
 	"strings"
@@ -87,8 +88,16 @@ func AddrOf(actors []*Actor, i int) sdk.AccAddress {
 	return actors[0].Addr
 }
 
+// str returns the i-th free-text field of a message spec. "hex:<digits>" stands for those raw bytes
+// (a protobuf string field carries whatever bytes the client puts on the wire; the replay file,
+// being JSON, can only hold them escaped).
 func str(s []string, i int) string {
 	if i < len(s) {
+		if h, ok := strings.CutPrefix(s[i], "hex:"); ok {
+			if b, err := hex.DecodeString(h); err == nil {
+				return string(b)
+			}
+		}
 		return s[i]
 	}
 	return ""
